@@ -50,7 +50,7 @@ func treeKey(es []model.Entry) string {
 	s := append([]model.Entry(nil), es...)
 	sort.Slice(s, func(i, j int) bool { return s[i].N < s[j].N })
 	for _, e := range s {
-		fmt.Fprintf(&b, "%s:%d:%d;", e.K, e.To, e.N)
+		fmt.Fprintf(&b, "%s:%d:%d:%s;", e.K, e.To, e.N, e.Mode)
 	}
 	return b.String()
 }
@@ -132,6 +132,13 @@ func genGraph(rng *rand.Rand, p genParams, names map[int][]byte) model.Graph {
 					} else {
 						e.K = "sub"
 					}
+				}
+				// now and then a non-canonical spelling of the mode with the same file-type bits (old or
+				// foreign repositories have them): the kind of the entry is decided by the type bits alone
+				if rng.Intn(8) == 0 {
+					alt := map[string][]string{"file": {"100664", "100600", "100444"}, "exec": {"100775", "100700"},
+						"tree": {"040000"}, "link": {"120777"}, "sub": {"160755"}}[e.K]
+					e.Mode = alt[rng.Intn(len(alt))]
 				}
 				es = append(es, e)
 			}
